@@ -10,12 +10,13 @@ mkdir -p $D
 cp $WT/_seed/patch.diff $WT/_seed/demo.py $D/ 2>/dev/null
 cp $WT/_seed/notes.md $D/ 2>/dev/null
 cd $WT
-git stash -q 2>/dev/null; git stash pop -q 2>/dev/null
+# (no git stash here: the stash is shared by all worktrees of a repository, so concurrent runs would swap changes)
+git checkout -q -- architecture_simulator; git apply _seed/patch.diff || { echo "patch does not apply"; exit 2; }
 T_WITH=$(PYTHONPATH=$WT /venv/bin/python -m pytest -q -p no:cacheprovider --timeout=900 2>&1 | tail -1)
 PYTHONPATH=$WT /venv/bin/python _seed/demo.py > $D/demo_with.txt 2>&1; RC_WITH=$?
-git stash -q -- architecture_simulator
+git apply -R _seed/patch.diff
 PYTHONPATH=$WT /venv/bin/python _seed/demo.py > $D/demo_without.txt 2>&1; RC_WITHOUT=$?
-git stash pop -q
+git apply _seed/patch.diff
 echo "tests_with_change: $T_WITH"; echo "demo rc with=$RC_WITH without=$RC_WITHOUT"
 # the checks are pointed at the scratch worktree that carries the change (VERIF_REPO); /repo itself is not touched, so
 # a long-running check of the unchanged tree is not disturbed
@@ -33,7 +34,7 @@ d,prop,t,rw,rwo,res=sys.argv[1:7]
 notes=open(d+'/notes.md').read() if __import__('os').path.exists(d+'/notes.md') else ''
 json.dump({"property":prop,"origin":"independent sub-agent given only the property text and a scratch worktree","needs_to_manifest":notes[:1500],
  "confirmed":{"existing_tests_with_change":t,"demo_exit_with_change":int(rw),"demo_exit_without_change":int(rwo)},
- "ran":"pyvc/seedcheck.sh: pytest in the scratch worktree with the change; demo.py with and without (git stash); ./check with VERIF_REPO=<scratch worktree carrying the change> (rounds 1-4: git -C /repo apply patch.diff; ./check; git -C /repo checkout -- .)",
+ "ran":"pyvc/seedcheck.sh: pytest in the scratch worktree with the change; demo.py with and without (git apply -R); ./check with VERIF_REPO=<scratch worktree carrying the change> (rounds 1-4: git -C /repo apply patch.diff; ./check; git -C /repo checkout -- .)",
  "check_output":res.strip().splitlines()[:14]}, open(d+'/meta.json','w'), indent=1)
 PY
 echo "stored in $D"
